@@ -241,6 +241,12 @@ class Tensor:
         return f"{self.__class__.__name__}({self.array.tolist()})"
 
     def _get_index_mapping(self, index: TensorIndex) -> list[int | None]:
+        # a boolean scalar (e.g. the result of a test on a single object) adds a new axis like None
+        index_tuple = index if isinstance(index, tuple) else (index,)
+        index = tuple(
+            None if isinstance(i, (bool, np.bool_)) or (isinstance(i, np.ndarray) and i.ndim == 0 and i.dtype == bool) else i
+            for i in index_tuple
+        )
         normalized_index = normalize_index(index, self.shape)  # type: ignore[no-untyped-call]
         advanced_indices = []
         advanced_arrays = []
